@@ -422,12 +422,12 @@ def coq_build_idmap(timeout=1500):
 
 def run(tier, seed, replay=None):
     rep = Report("C18_idmap", tier, seed)
-    ok, msg = gen_consts()
+    ok, msg = gen_consts("c18")
     cb = coq_build_idmap()
     gate = [g for g in coq_gate() if g.startswith("IdMap/") or g.startswith("Gen/")]
     rep.proof_cov(cb, "make -C coq IdMap/IdMapProps.vo && coqc IdMap/IdMapProps.v (Print Assumptions) ; grep gate")
     proof_ok = ok and cb["ok"] and not gate
-    model_build()
+    model_build("idmap")
     bdir, err = nng_build("asan")
     if bdir is None:
         p = rep.replay_file("build_failed.txt", err)
